@@ -33,7 +33,9 @@ package rest
 //@   // every failing step is reported
 //@   ensures[C15.4] glc_err != nil ==> err != nil && !sent
 //@   ensures[C15.4] sent && do_err != nil ==> err != nil
-//@   ensures[C15.4] err == nil ==> sent && do_err == nil && do_status == 200 && do_final_method == "PUT"
+//@   // (that the 200 is the answer to this PUT and not to a request the HTTP client made on its own after a redirect rests on
+//@   // the client's redirect policy: C15.redir on NewDistributor; the method guard in the code is a second line of defence)
+//@   ensures[C15.4] err == nil ==> sent && do_err == nil && do_status == 200
 //@   // the success counter moves exactly on success
 //@   ensures[C15.5] cnt[counterDistRestSuccess][l.ID] == old(cnt[counterDistRestSuccess][l.ID]) + (err == nil ? 1 : 0)
 
